@@ -1,23 +1,22 @@
-SPECIFICATION XHonestSpec
+SPECIFICATION Spec
 CONSTANTS
-  MCMaxBal = 7
-  AmtRange = 7
-  MaxPays = 6
-  MCChannels = {1, 2}
+  MCMaxBal = 1
+  AmtRange = 1
+  MaxPays = 2
+  MCChannels = {2}
   Channels <- MCChannels
   MerOf <- MCMerOf
   InitBals <- MCInitBals
   Amounts <- MCAmounts
   FaultKinds <- MCNone
-  AdvChannels <- MCNone
-  ProofSound = TRUE
+  AdvChannels <- MCAdv
+  ProofSound = FALSE
   RevKinds <- MCNone
   NAdd <- MCAdd
   NSub <- MCSub
   NLeq <- MCLeq
   NZero = 0
-  MaxBal = 7
-  XDepth = 40
-  UMax = 15
-INVARIANTS Emit CanClose
+  MaxBal = 1
+  UMax = 3
+INVARIANTS NoDoubleSpend
 CHECK_DEADLOCK FALSE
